@@ -11,6 +11,18 @@ TB = ("Coq 8.16.1 kernel (+vm_compute); no axioms of our own (Print Assumptions 
       "tied by regeneration/correspondence on the cases run")
 
 CHECKS = {
+    "C02": dict(
+        engine="E5 source",
+        technique="Coq reference evaluator (Src/Eval.v) with machine-checked theorems for every language rule the property names (operand / argument order, short-circuit, binding shares cells, assignment copies payloads, fuel independence) [+ compiler-correctness theorem for the fragment proved so far]; differential: real compiler+VM vs the extracted evaluator on type-directed generated programs (result, printed text, unhandled exception)",
+        text="proof (partial): the property is equality with an independent reference evaluator; the evaluator is a Gallina program whose stated rules are theorems over all expressions and states (binop_left_to_right, call_args_right_to_left, and/or_short_circuits, binding_never_copies, assign_copies_payload, run_program_fuel_mono ...); the tie is the differential run on thousands of generated programs per run over all profiles (arith, order, alias, closure, shadow, loops, records, arrays, catch, tailrec), each also in uniquified and injectively renamed form; a compile-correctness theorem exists only for the fragment stated in Properties_C02 (see DESIGN §0): beyond it the evaluator is a model validated against the code, not a theorem about the compiler",
+        ref="DESIGN.md §5 C02, §0",
+        note=TB + "; constructs outside Src/Syntax.v (strings, floats, enums/match, tuples, ranges, slices, comprehensions, modules) are covered by the other engines' probe families, not by this evaluator; sibling nested functions and tail-call elimination under catch clauses are listed as not modelled"),
+    "C08": dict(
+        engine="E5 source",
+        technique="Coq proofs on the reference evaluator: invariance under every injective renaming of all names, true alpha-conversion of a let/var binder to a fresh name (capture-avoiding substitution), closures capture the environment's cells, distinct activations get distinct cells, store monotonicity; differential: original vs uniquified vs injectively renamed programs on the real compiler, and vs the evaluator, on shadowing/closure/alias profiles",
+        text="proof: rename_invariance, alpha_fresh_binder (+ in_block, block_expr), closure_captures_cells, distinct_activations_distinct_cells, store_monotone about Src/Eval.v; tie: generated programs with the same name bound at every binder kind in nested scopes, escaping and returned closures, counters shared between closures: the real compiler must give the same outcome on the original, on the alpha-renamed (all binders unique) and on an injectively renamed variant, and equal to the evaluator",
+        ref="DESIGN.md §5 C08",
+        note=TB + "; free-variable resolution inside the real compiler (gencode.c) is tied only through the differential; one known finding (late shadow after closure kills the compiler)"),
     "C06": dict(
         engine="E5 source",
         technique="Coq model typechecker for the core AST, proved sound AND complete w.r.t. a declarative typing judgment; every single-fault mutation operator of the rule catalogue proved rejected at any nesting depth; real compiler vs model on generated well-typed programs and all their mutants (accept/reject and diagnostic line), text-level mutants for unknown names/attributes/exceptions and match exhaustiveness",
